@@ -453,6 +453,11 @@ def mk_executor(crate, cap=8, loop_bound=12, inline=None, extra_summaries=None, 
                   summaries=S.compile_summaries((extra_summaries or []) + PEARL_SUMMARIES + IT.ITER_SUMMARIES),
                   havoc=lambda name: any(r.search(name) for r in havoc_rx),
                   max_paths=max_paths)
+    if os.environ.get("VERIF_TIER") == "thorough":
+        # deeper bounds make single feasibility queries slower; an 'unknown' is inconclusive, so give them more time
+        ex.timeout_ms = 180000
+        ex.solver.set("timeout", ex.timeout_ms)
+        ex.prove_timeout_ms = 900000
     ex.crate = crate
     if not hasattr(crate, "impl_index"):
         crate.build_impl_index()
